@@ -419,8 +419,11 @@ def run_check(pid, tier, seed, replay=None):
 
     # proof obligations of this property
     ns = 'Pyg.Props.%s.' % pid
-    thms = {k: v for k, v in audit.items() if k.startswith(ns)}
-    bad_axioms = {k: v for k, v in thms.items() if not set(v) <= ALLOWED_AXIOMS}
+    allthms = {k: v for k, v in audit.items() if k.startswith(ns)}
+    # declarations Lean generates for a definition / inductive / structure inside the namespace (equation lemmas f.eq_1, C.inj,
+    # C.sizeOf_spec, projections of a Prop structure ...) are axiom-audited like the rest but are not counted as property theorems
+    thms = {k: v for k, v in allthms.items() if '.' not in k[len(ns):]}
+    bad_axioms = {k: v for k, v in allthms.items() if not set(v) <= ALLOWED_AXIOMS}
     forbidden = grep_forbidden()
     obligations = len(thms)
     discharged = len(thms) - len(bad_axioms)
